@@ -31,6 +31,7 @@ pub fn name_of(rng: &mut StdRng, shape: &Value) -> String {
             "roman" => ["II", "III", "IV", "V", "IX", "XIV", "MMXX"][rng.gen_range(0 .. 7)].to_string(),
             "num" => [4u32, 66, 2042, 9][rng.gen_range(0 .. 4)].to_string(),
             "hyphen" => format!("{}-{}", word(rng), word(rng)),
+            "alnum" => ["3D", "4x4", "7th", "2Fort", "Quake3", "F1", "R6", "X3"][rng.gen_range(0 .. 8)].to_string(),
             _ => {
                 let (a, b) = (rng.gen_range(10 ..= 99), rng.gen_range(10 ..= 99));
                 if rng.gen_bool(0.5) { format!("'{a}-'{b}") } else { format!("{a}-{b}") }
